@@ -244,6 +244,7 @@ func checkC01(r *core.Run) {
 	c01OpClass(r, p, ev)
 	c01StackEffect(r, p, ev)
 	c01Rules(r, p, ev)
+	c01Total(r, p, ev)
 }
 
 func c01Rules(r *core.Run, p *core.Program, ev *ssa.Function) {
@@ -262,6 +263,14 @@ func c01Rules(r *core.Run, p *core.Program, ev *ssa.Function) {
 	for _, g := range c01LoopGuards() {
 		ok, why := l.checkGuard(p, fl, g)
 		r.Check(ok, rule, "loop/"+g.key, p.Pos(ev.Pos()), g.what, g.what+": "+why)
+	}
+	for _, fg := range c01FnGuards() {
+		ok, why, pos := c01CheckFnGuard(p, fg)
+		r.Check(ok, rule, "fn/"+fg.g.key, pos, fg.g.what, fg.g.what+": "+why)
+	}
+	for _, fg := range c01OrchGuards() {
+		ok, why, pos := c01CheckFnGuard(p, fg)
+		r.Check(ok, rule, "orch/"+fg.g.key, pos, fg.g.what, fg.g.what+": "+why)
 	}
 	for _, fc := range c01FlagClasses() {
 		bad := ""
